@@ -64,6 +64,7 @@ type RespSpec struct {
 	Destination  string     `json:"destination"`
 	InResponseTo string     `json:"irt"`
 	Status       string     `json:"status"`
+	SubStatus    string     `json:"sub_status,omitempty"` // nested second-level StatusCode ("" = none)
 	Sign         bool       `json:"sign"`
 	SignKey      int        `json:"sign_key,omitempty"`
 	Assertions   []AsrtSpec `json:"assertions"`
@@ -291,6 +292,9 @@ func encryptAssertionEl(el *etree.Element, kp KeyPair) *etree.Element {
 func BuildResponseEl(s *RespSpec, t0 time.Time) *etree.Element {
 	r := &saml.Response{ID: s.ID, InResponseTo: s.InResponseTo, Version: "2.0", IssueInstant: t0.Add(ms(s.IssueMs)).UTC(),
 		Destination: s.Destination, Status: saml.Status{StatusCode: saml.StatusCode{Value: s.Status}}}
+	if s.SubStatus != "" {
+		r.Status.StatusCode.StatusCode = &saml.StatusCode{Value: s.SubStatus}
+	}
 	if s.Issuer != nil {
 		r.Issuer = &saml.Issuer{Format: "urn:oasis:names:tc:SAML:2.0:nameid-format:entity", Value: *s.Issuer}
 	}
